@@ -390,9 +390,25 @@ _ADDED4 = {
     "C18": " (W6) IRectTransform.center_pivot agrees with top/bot/left/right_pivot for all 9 alignments (symbolic pivot, width, height).",
     "C19": " (I6) = C16.Q11. `is` between ordinary values is an identity atom of its own; equal names are taken as distinct objects when a formula tests identity.",
 }
-_PY = (" Every check also runs five lints for slips of the Python data model (qcolint/pylints.py; rules <id>.PY1..PY5) over the files the property's anchors name: "
+_ADDED5 = {
+    "C01": " (R16) a block handed to add() is nested as a copy whichever interface it arrives through (shared C02.L7).",
+    "C02": " (L12) IGraphNavigation.empty_graph is true exactly when the only leaf is the root (leaf form or branch depth 0).",
+    "C03": " (H9) the span of a block does not depend on the frame its operations report times in (shared C04.D1/D2); H3 also reads a class-form override "
+           "(__enter__ / __exit__): the saved getter is reinstalled on every way out, an exception included.",
+    "C04": " (D7) = C02.L12: the zero-duration shortcut is taken for empty blocks only.",
+    "C07": " (A12) the Stim exporter walks the listing order the registry counts in (shared C08.S2).",
+    "C10": " (T8) each unrolled copy follows the latest-ending leaf (shared C01.R4); (T9) the end of a nested block is its exact span (shared C04.D1/D2).",
+    "C13": " (M7) operations re-inserted by flatten go under their reference or behind the channel leaf, never blindly to the root (shared C01.R6).",
+    "C16": " (Q12) the Operation factories build plain Operation objects (dataclass equality is class-strict).",
+    "C17": " (Y13) the layer views handed to the circuit builders list every gate and every in-code park of the layer (shared C09.P6).",
+    "C19": " Tables keyed by enum names are evaluated like Python does (member.name, display.get, membership over displays), so a name / member mix-up shows in the truth table.",
+}
+for _k, _v in _ADDED5.items():
+    CLAIMS[_k]["text"] = CLAIMS[_k]["text"] + _v
+_PY = (" Every check also runs six lints for slips of the Python data model (qcolint/pylints.py; rules <id>.PY1..PY6) over the files the property's anchors name: "
        "late-binding closures that escape their loop, one-shot iterators consumed twice, containers stored and then changed in place, replicated / default mutables, and truth "
-       "tests of Optional[T] values whose T has falsy members. Each reports only the shape in which the slip is certain.")
+       "tests of Optional[T] values whose T has falsy members, and float-typed values stored into integer arrays. Each reports only the shape in which the slip is certain; "
+       "each lint must fire on a positive example and stay silent on its negative twin on every run (qcolint/pylints_examples.py).")
 for _k in list(CLAIMS):
     CLAIMS[_k]["text"] = CLAIMS[_k]["text"] + _ADDED4.get(_k, "")
 NOTES += _PY
